@@ -299,6 +299,25 @@ pub fn rich_def_source(rng: &mut Rng, name: &str) -> String {
         _ => "",
     };
     let _ = writeln!(s, "pub enum {}{} {{", name, generics);
+    // "error soup": several diagnostics of different kinds at once (their text and order are output too)
+    let soup = rng.chance(1, 3);
+    if soup {
+        let names = ["alpha", "beta", "gamma", "delta", "omega"];
+        let k = rng.range(2, 4);
+        let mut refs = String::new();
+        for j in 0..k {
+            refs.push_str(&format!("(?&{})", names[(j + rng.below(2)) % names.len()]));
+            if rng.chance(1, 2) { refs.push('x'); }
+        }
+        let _ = writeln!(s, "    #[regex(r\"{}\")]\n    Undefined,", refs);
+        if rng.chance(1, 2) { let _ = writeln!(s, "    #[regex(r\"a*\")]\n    Empty,"); }
+        if rng.chance(1, 2) { let _ = writeln!(s, "    #[regex(r\"(?&{})b|(?&{})\")]\n    Undefined2,", names[rng.below(5)], names[rng.below(5)]); }
+        if rng.chance(1, 3) { let _ = writeln!(s, "    #[token(\"n\")]\n    Named {{ a: u8 }},"); }
+        if rng.chance(1, 3) { let _ = writeln!(s, "    #[token(\"two\")]\n    Two(u8, u8),"); }
+        if rng.chance(1, 3) && utf8 { let _ = writeln!(s, "    #[regex(b\"\\xFF+\")]\n    NotUtf8,"); }
+        if rng.chance(1, 3) { let _ = writeln!(s, "    #[regex(\"(?<name>a)\\\\1\")]\n    Backref,"); }
+        if rng.chance(1, 3) { let _ = writeln!(s, "    #[regex(\".+\")]\n    Greedy,"); }
+    }
     let nvar = rng.range(2, 10);
     let mut prios: Vec<usize> = (1..=60).collect();
     for v in 0..nvar {
